@@ -58,11 +58,14 @@ def work(args):
                     xcube.pool_class = real_pool_class
                 q = "%ss.%s.calculate" % (kind, kind)
                 MON.check(q + "/pooled-path-engaged", len(log) >= 1 and sum(l["tasks"] for l in log) >= 3, lambda: "pool.map calls: %r" % ([l["tasks"] for l in log],), ex, cls)
-                got = sorted(tuple(int(e) for e in co) for l in log for co in l["coords"])
-                want = sorted(np.ndindex(*[int(e) for d in dims for e in d.shape[1:]]))
-                MON.check(q + "/task-frame-O5-every-sub-cube-handed-to-the-pool-exactly-once", got == want,
-                          lambda: "%d tasks handed over for %d sub-cubes; never handed: %r; more than once: %r" % (
-                              len(got), len(want), sorted(set(want) - set(got))[:5], sorted({c for c in got if got.count(c) > 1})[:5]), ex, cls)
+                if all(l["coords"] is not None for l in log):
+                    got = sorted(tuple(int(e) for e in co) for l in log for co in l["coords"])
+                    want = sorted(np.ndindex(*[int(e) for d in dims for e in d.shape[1:]]))
+                    MON.check(q + "/task-frame-O5-every-sub-cube-handed-to-the-pool-exactly-once", got == want,
+                              lambda: "%d sub-cubes handed over for %d; never handed: %r; more than once: %r" % (
+                                  len(got), len(want), sorted(set(want) - set(got))[:5], sorted({c for c in got if got.count(c) > 1})[:5]), ex, cls)
+                else:
+                    MON.check(q + "/frame-monitor-task-items-not-recognised", True)  # O5 not judged; pooled == serial is
                 viol = [v for l in log for v in l["violations"]]
                 if any(l.get("stale") for l in log):
                     # the monitor does not bind to this task function: O1-O4 are not judged (reported as proof_stale by the check)
